@@ -446,4 +446,22 @@ Definition phc (ia_ f m b : N) : phop :=
 Definition ts (ia_ rtr : N) (ing : ingress) (eg : N) (ext : bool) (ci ch : N) (sids : list N) : tstep :=
   mkT ia_ rtr ing eg ext ci ch sids.
 
+(** several fields packed into one number (parsing one long literal is much cheaper
+    than parsing many): [bits x sh w] = the [w] bits of [x] from bit [sh] on *)
+Definition bits (x sh w : N) : N := N.land (N.shiftr x sh) (N.ones w).
+Definition bit (x sh : N) : bool := N.testbit x sh.
+(** hop of a provenance path: beta | MAC | ConsEgress | ConsIngress | ExpTime *)
+Definition php (ia_ x : N) : phop :=
+  mkPh ia_ (bits x 80 16) (bits x 64 16) (bits x 96 8) (be_bytes 6 (bits x 16 48)) (bits x 0 16).
+(** MAC table entry: MAC | eg | in | exp | ts | segid *)
+Definition mce (x : N) : mac_entry :=
+  (bits x 120 16, bits x 88 32, bits x 80 8, bits x 64 16, bits x 48 16, be_bytes 6 (bits x 0 48)).
+(** hop field of a packet: MAC | eg | in | exp | reserved | egress alert | ingress alert *)
+Definition rhp (x : N) : Router.hop :=
+  mkHop (bit x 97) (bit x 96) (bits x 80 8) (bits x 64 16) (bits x 48 16) (be_bytes 6 (bits x 0 48))
+        (bits x 88 8).
+(** info field of a packet: ts | segid | reserved | ConsDir | Peer *)
+Definition rif (x : N) : info :=
+  mkInfo (bit x 65) (bit x 64) (bits x 32 16) (bits x 0 32) (bits x 48 16).
+
 End Prov.
